@@ -42,8 +42,11 @@ def lopar(gram, lexicon, dest, dest_enc, **params):
                 if func[0] in startsymbols:
                     startsymbols[func[0]] += count
                 lhs = u"%s" % func[0]
+                # right-hand side in the order of the (single) linearization
+                # argument, which differs from the order in func after an
+                # optimal reordering
                 rhs = ' '.join([u"%s" % func[i + 1]
-                                for i in range(len(func[1:]))])
+                                for (i, _) in lin[0]])
                 print(f"{count} {lhs} {rhs}", file=gram_stream)
         for word in lexicon:
             if any(c in BRACKETS for c in word):
